@@ -217,6 +217,17 @@ spec fn sizes_ok(ts: Seq<TypeNode>) -> bool {
     forall|i: int, j: int| 0 <= i < ts.len() && 0 <= j < ts.len() ==> (#[trigger] ts[i]).size + (#[trigger] ts[j]).size <= usize::MAX
 }
 
+/// what `push_type` does to the graph (opaque for callers: the quantified frame facts are only
+/// revealed where they are needed, they are expensive in a function that pushes many types)
+#[verifier::opaque]
+spec fn push_frame(ts0: Seq<TypeNode>, ts1: Seq<TypeNode>, ty: Type) -> bool {
+    &&& ts1.len() == ts0.len() + 1
+    &&& ts1[ts0.len() as int].ty == ty
+    &&& ts1[ts0.len() as int].parent is None
+    &&& forall|i: int| 0 <= i < ts0.len() ==> ts1[i] == ts0[i]
+    &&& forall|i: int| 0 <= i < ts0.len() ==> rep0(ts1, i) == rep0(ts0, i)
+    &&& rep0(ts1, ts0.len() as int) == ts0.len()
+}
 /// type of (the class of) an id
 spec fn ty_of(ts: Seq<TypeNode>, a: TyID) -> Type { ts[rep0(ts, a.0 as int)].ty }
 
@@ -492,60 +503,160 @@ proof fn axiom_constraint_key_order() ensures vstd::std_specs::btree::key_obeys_
 spec fn cons_of(ts: Seq<TypeNode>, i: int) -> Set<Constraint> { ts[rep0(ts, i)].constraints@.dom() }
 
 
-// ---- structural rules of the statement level (C04, C05, C07) --------------------------------------
-/// declarations that are only legal at the top level; the type checker's `statement` treats them
-/// as unreachable (typechecker.rs "Illegal inner statement") - the resolver must never emit them
-/// inside a function body
-spec fn is_decl(s: Statement) -> bool { s is Blob || s is Enum || s is ExternalDefinition }
-
-/// what `statement` needs of its input so that no index / unreachable! can fail: variable ids in
-/// range at the places the statement level touches them, and no nested declaration, through
-/// blocks and loop bodies (statements nested inside *expressions* belong to `expression`)
-spec fn stmt_ok(s: Statement, n: int) -> bool decreases s {
-    match s {
-        Statement::Definition { var, value, .. } => var < n && fn_params_ok(value, n),
-        Statement::Assignment { target, .. } => target_ok(target, n),
-        Statement::Block { statements, .. } => forall|i: int| 0 <= i < statements.len() ==> stmt_ok(#[trigger] statements[i], n),
-        Statement::Loop { body, .. } => forall|i: int| 0 <= i < body.len() ==> stmt_ok(#[trigger] body[i], n),
-        Statement::Blob { .. } | Statement::Enum { .. } | Statement::ExternalDefinition { .. } => false,
-        _ => true,
-    }
-}
-spec fn fn_params_ok(e: Expression, n: int) -> bool {
-    match e {
-        Expression::Function { params, .. } => forall|k: int| 0 <= k < params.len() ==> (#[trigger] params[k]).1 < n,
-        _ => true,
-    }
-}
+// ---- structural rules (C04, C05), deep: through every expression, branch, block and closure ----------
 spec fn target_ok(e: Expression, n: int) -> bool {
     match e { Expression::Read { var, .. } => var < n, _ => true }
 }
+/// `break`/`continue` only inside a loop OF THE SAME FUNCTION: a loop body is checked with `true`,
+/// a function body with `false`, everything else inherits
+spec fn e_brk(e: Expression, l: bool) -> bool decreases e {
+    match e {
+        Expression::Read { .. } => true,
+        Expression::Variant { value, .. } => e_brk(*value, l),
+        Expression::Call { function, args, .. } => e_brk(*function, l) && forall|i: int| 0 <= i < args.len() ==> e_brk(#[trigger] args[i], l),
+        Expression::BlobAccess { value, .. } => e_brk(*value, l),
+        Expression::Index { value, index, .. } => e_brk(*value, l) && e_brk(*index, l),
+        Expression::BinOp { a, b, .. } => e_brk(*a, l) && e_brk(*b, l),
+        Expression::UniOp { a, .. } => e_brk(*a, l),
+        Expression::If { branches, .. } => forall|i: int| 0 <= i < branches.len() ==> ib_brk(#[trigger] branches[i], l),
+        Expression::Case { to_match, branches, fall_through, .. } => e_brk(*to_match, l)
+            && (forall|i: int| 0 <= i < branches.len() ==> cb_brk(#[trigger] branches[i], l))
+            && (match fall_through { Some(b) => forall|i: int| 0 <= i < b.len() ==> s_brk(#[trigger] b[i], l), None => true }),
+        Expression::Function { body, .. } => forall|i: int| 0 <= i < body.len() ==> s_brk(#[trigger] body[i], false),
+        Expression::Blob { fields, .. } => forall|i: int| 0 <= i < fields.len() ==> e_brk((#[trigger] fields[i]).1, l),
+        Expression::Collection { values, .. } => forall|i: int| 0 <= i < values.len() ==> e_brk(#[trigger] values[i], l),
+        Expression::Float(..) | Expression::Int(..) | Expression::Str(..) | Expression::Bool(..) | Expression::Nil(..) => true,
+    }
+}
+spec fn ib_brk(b: IfBranch, l: bool) -> bool decreases b {
+    (match b.condition { Some(c) => e_brk(c, l), None => true }) && forall|i: int| 0 <= i < b.body.len() ==> s_brk(#[trigger] b.body[i], l)
+}
+spec fn cb_brk(b: CaseBranch, l: bool) -> bool decreases b {
+    forall|i: int| 0 <= i < b.body.len() ==> s_brk(#[trigger] b.body[i], l)
+}
+spec fn s_brk(s: Statement, l: bool) -> bool decreases s {
+    match s {
+        Statement::Assignment { target, value, .. } => e_brk(target, l) && e_brk(value, l),
+        Statement::Blob { .. } | Statement::Enum { .. } | Statement::ExternalDefinition { .. } => true,
+        Statement::Definition { value, .. } => e_brk(value, l),
+        Statement::Loop { condition, body, .. } => e_brk(condition, l) && forall|i: int| 0 <= i < body.len() ==> s_brk(#[trigger] body[i], true),
+        Statement::Break(_) | Statement::Continue(_) => l,
+        Statement::Unreachable(_) => true,
+        Statement::Ret { value, .. } => match value { Some(v) => e_brk(v, l), None => true },
+        Statement::Block { statements, .. } => forall|i: int| 0 <= i < statements.len() ==> s_brk(#[trigger] statements[i], l),
+        Statement::StatementExpression { value, .. } => e_brk(value, l),
+    }
+}
+/// one-level (non-recursive) view of the two structural rules, used by `expression`, which hides the
+/// recursive predicates: what must hold of the children for the node to satisfy e_brk and e_pur
+spec fn e_both(vs: Seq<TypeVariable>, e: Expression, l: bool, p: bool) -> bool { e_brk(e, l) && e_pur(vs, e, p) }
+spec fn all_both(vs: Seq<TypeVariable>, ss: Seq<Statement>, l: bool, p: bool) -> bool { all_brk(ss, l) && all_pur(vs, ss, p) }
+spec fn ib_str(vs: Seq<TypeVariable>, b: IfBranch, l: bool, p: bool) -> bool {
+    (b.condition is Some ==> e_both(vs, b.condition->Some_0, l, p)) && all_both(vs, b.body@, l, p)
+}
+spec fn cb_str(vs: Seq<TypeVariable>, b: CaseBranch, l: bool, p: bool) -> bool { all_both(vs, b.body@, l, p) }
+spec fn e_str_children(vs: Seq<TypeVariable>, e: Expression, l: bool, p: bool) -> bool {
+    match e {
+        Expression::Read { var, .. } => !(p && vs[var as int].kind is Mutable),
+        Expression::Variant { value, .. } => e_both(vs, *value, l, p),
+        Expression::Call { function, args, .. } => e_both(vs, *function, l, p) && forall|i: int| 0 <= i < args@.len() ==> e_both(vs, #[trigger] args@[i], l, p),
+        Expression::BlobAccess { value, .. } => e_both(vs, *value, l, p),
+        Expression::Index { value, index, .. } => e_both(vs, *value, l, p) && e_both(vs, *index, l, p),
+        Expression::BinOp { a, b, .. } => e_both(vs, *a, l, p) && e_both(vs, *b, l, p),
+        Expression::UniOp { a, .. } => e_both(vs, *a, l, p),
+        Expression::If { branches, .. } => forall|i: int| 0 <= i < branches@.len() ==> ib_str(vs, #[trigger] branches@[i], l, p),
+        Expression::Case { to_match, branches, fall_through, .. } => e_both(vs, *to_match, l, p)
+            && (forall|i: int| 0 <= i < branches@.len() ==> cb_str(vs, #[trigger] branches@[i], l, p))
+            && (fall_through is Some ==> all_both(vs, fall_through->Some_0@, l, p)),
+        Expression::Function { body, pure, .. } => all_both(vs, body@, false, p || pure),
+        Expression::Blob { fields, .. } => forall|i: int| 0 <= i < fields@.len() ==> e_both(vs, (#[trigger] fields@[i]).1, l, p),
+        Expression::Collection { values, .. } => forall|i: int| 0 <= i < values@.len() ==> e_both(vs, #[trigger] values@[i], l, p),
+        Expression::Float(..) | Expression::Int(..) | Expression::Str(..) | Expression::Bool(..) | Expression::Nil(..) => true,
+    }
+}
+proof fn lemma_e_str_intro(vs: Seq<TypeVariable>, e: Expression, l: bool, p: bool)
+    requires e_str_children(vs, e, l, p),
+    ensures e_brk(e, l), e_pur(vs, e, p),
+{
+    match e {
+        Expression::Call { function, args, .. } => {
+            assert forall|i: int| 0 <= i < args.len() implies e_brk(#[trigger] args[i], l) by { assert(e_both(vs, args@[i], l, p)); }
+            assert forall|i: int| 0 <= i < args.len() implies e_pur(vs, #[trigger] args[i], p) by { assert(e_both(vs, args@[i], l, p)); }
+        }
+        Expression::If { branches, .. } => {
+            assert forall|i: int| 0 <= i < branches.len() implies ib_brk(#[trigger] branches[i], l) by { assert(ib_str(vs, branches@[i], l, p)); }
+            assert forall|i: int| 0 <= i < branches.len() implies ib_pur(vs, #[trigger] branches[i], p) by { assert(ib_str(vs, branches@[i], l, p)); }
+        }
+        Expression::Case { branches, fall_through, .. } => {
+            assert forall|i: int| 0 <= i < branches.len() implies cb_brk(#[trigger] branches[i], l) by { assert(cb_str(vs, branches@[i], l, p)); }
+            assert forall|i: int| 0 <= i < branches.len() implies cb_pur(vs, #[trigger] branches[i], p) by { assert(cb_str(vs, branches@[i], l, p)); }
+        }
+        Expression::Blob { fields, .. } => {
+            assert forall|i: int| 0 <= i < fields.len() implies e_brk((#[trigger] fields[i]).1, l) by { assert(e_both(vs, fields@[i].1, l, p)); }
+            assert forall|i: int| 0 <= i < fields.len() implies e_pur(vs, (#[trigger] fields[i]).1, p) by { assert(e_both(vs, fields@[i].1, l, p)); }
+        }
+        Expression::Collection { values, .. } => {
+            assert forall|i: int| 0 <= i < values.len() implies e_brk(#[trigger] values[i], l) by { assert(e_both(vs, values@[i], l, p)); }
+            assert forall|i: int| 0 <= i < values.len() implies e_pur(vs, #[trigger] values[i], p) by { assert(e_both(vs, values@[i], l, p)); }
+        }
+        _ => {}
+    }
+}
+
+/// ids collected per `if` branch are nodes of the graph
+spec fn tys_valid(tys: Seq<(&Span, Option<TyID>, Option<TyID>)>, n: int) -> bool {
+    forall|k: int| 0 <= k < tys.len() ==> ((#[trigger] tys[k]).1 is Some ==> (tys[k].1->Some_0.0 as int) < n) && (tys[k].2 is Some ==> (tys[k].2->Some_0.0 as int) < n)
+}
+spec fn all_brk(ss: Seq<Statement>, l: bool) -> bool { forall|i: int| 0 <= i < ss.len() ==> s_brk(#[trigger] ss[i], l) }
+
+/// inside a pure function - at any depth, including nested closures, branches and loops - there is
+/// no assignment, no mutable declaration and no read of a mutable variable; `pu` switches the flag
+/// on, nothing switches it off
+spec fn e_pur(vs: Seq<TypeVariable>, e: Expression, p: bool) -> bool decreases e {
+    match e {
+        Expression::Read { var, .. } => !(p && vs[var as int].kind is Mutable),
+        Expression::Variant { value, .. } => e_pur(vs, *value, p),
+        Expression::Call { function, args, .. } => e_pur(vs, *function, p) && forall|i: int| 0 <= i < args.len() ==> e_pur(vs, #[trigger] args[i], p),
+        Expression::BlobAccess { value, .. } => e_pur(vs, *value, p),
+        Expression::Index { value, index, .. } => e_pur(vs, *value, p) && e_pur(vs, *index, p),
+        Expression::BinOp { a, b, .. } => e_pur(vs, *a, p) && e_pur(vs, *b, p),
+        Expression::UniOp { a, .. } => e_pur(vs, *a, p),
+        Expression::If { branches, .. } => forall|i: int| 0 <= i < branches.len() ==> ib_pur(vs, #[trigger] branches[i], p),
+        Expression::Case { to_match, branches, fall_through, .. } => e_pur(vs, *to_match, p)
+            && (forall|i: int| 0 <= i < branches.len() ==> cb_pur(vs, #[trigger] branches[i], p))
+            && (match fall_through { Some(b) => forall|i: int| 0 <= i < b.len() ==> s_pur(vs, #[trigger] b[i], p), None => true }),
+        Expression::Function { body, pure, .. } => forall|i: int| 0 <= i < body.len() ==> s_pur(vs, #[trigger] body[i], p || pure),
+        Expression::Blob { fields, .. } => forall|i: int| 0 <= i < fields.len() ==> e_pur(vs, (#[trigger] fields[i]).1, p),
+        Expression::Collection { values, .. } => forall|i: int| 0 <= i < values.len() ==> e_pur(vs, #[trigger] values[i], p),
+        Expression::Float(..) | Expression::Int(..) | Expression::Str(..) | Expression::Bool(..) | Expression::Nil(..) => true,
+    }
+}
+spec fn ib_pur(vs: Seq<TypeVariable>, b: IfBranch, p: bool) -> bool decreases b {
+    (match b.condition { Some(c) => e_pur(vs, c, p), None => true }) && forall|i: int| 0 <= i < b.body.len() ==> s_pur(vs, #[trigger] b.body[i], p)
+}
+spec fn cb_pur(vs: Seq<TypeVariable>, b: CaseBranch, p: bool) -> bool decreases b {
+    forall|i: int| 0 <= i < b.body.len() ==> s_pur(vs, #[trigger] b.body[i], p)
+}
+spec fn s_pur(vs: Seq<TypeVariable>, s: Statement, p: bool) -> bool decreases s {
+    match s {
+        Statement::Assignment { target, value, .. } => !p && e_pur(vs, target, p) && e_pur(vs, value, p),
+        Statement::Blob { .. } | Statement::Enum { .. } | Statement::ExternalDefinition { .. } => true,
+        Statement::Definition { kind, value, .. } => !(p && kind is Mutable) && e_pur(vs, value, p),
+        Statement::Loop { condition, body, .. } => e_pur(vs, condition, p) && forall|i: int| 0 <= i < body.len() ==> s_pur(vs, #[trigger] body[i], p),
+        Statement::Break(_) | Statement::Continue(_) | Statement::Unreachable(_) => true,
+        Statement::Ret { value, .. } => match value { Some(v) => e_pur(vs, v, p), None => true },
+        Statement::Block { statements, .. } => forall|i: int| 0 <= i < statements.len() ==> s_pur(vs, #[trigger] statements[i], p),
+        Statement::StatementExpression { value, .. } => e_pur(vs, value, p),
+    }
+}
+spec fn all_pur(vs: Seq<TypeVariable>, ss: Seq<Statement>, p: bool) -> bool { forall|i: int| 0 <= i < ss.len() ==> s_pur(vs, #[trigger] ss[i], p) }
+
 /// the assignability table of C04: only mutable variables, field accesses and indexings
 spec fn assignable_ok(vars: Seq<TypeVariable>, e: Expression) -> bool {
     match e {
         Expression::Read { var, .. } => vars[var as int].kind is Mutable,
         Expression::BlobAccess { .. } | Expression::Index { .. } => true,
         _ => false,
-    }
-}
-/// `break`/`continue` only inside a loop, through blocks and loop bodies (the part of the rule
-/// that lives at the statement level; function bodies and branches are inside `expression`)
-spec fn break_ok(s: Statement, in_loop: bool) -> bool decreases s {
-    match s {
-        Statement::Break(_) | Statement::Continue(_) => in_loop,
-        Statement::Block { statements, .. } => forall|i: int| 0 <= i < statements.len() ==> break_ok(#[trigger] statements[i], in_loop),
-        Statement::Loop { body, .. } => forall|i: int| 0 <= i < body.len() ==> break_ok(#[trigger] body[i], true),
-        _ => true,
-    }
-}
-/// no assignment and no mutable declaration inside a pure function, through blocks and loops
-spec fn pure_ok(s: Statement, in_pure: bool) -> bool decreases s {
-    match s {
-        Statement::Assignment { .. } => !in_pure,
-        Statement::Definition { kind, .. } => !(in_pure && kind is Mutable),
-        Statement::Block { statements, .. } => forall|i: int| 0 <= i < statements.len() ==> pure_ok(#[trigger] statements[i], in_pure),
-        Statement::Loop { body, .. } => forall|i: int| 0 <= i < body.len() ==> pure_ok(#[trigger] body[i], in_pure),
-        _ => true,
     }
 }
 
@@ -605,6 +716,35 @@ proof fn axiom_sizes_fit(ts: Seq<TypeNode>, i: int, j: int)
     ensures ts[rep0(ts, i)].size + ts[rep0(ts, j)].size <= usize::MAX
 {}
 
+// std function without a vstd specification: Option::or returns the first Some (assumed specification)
+pub assume_specification<T> [ Option::<T>::or ] (a: Option<T>, b: Option<T>) -> (r: Option<T>) ensures r == (if a is Some { a } else { b });
+macro_rules! type_error {
+    ($self:expr, $span:expr, $($rest:tt)*) => { opaque_error($span) };
+}
+#[verifier::external_body]
+fn opaque_error(span: Span) -> (r: Error) ensures r.span() == span { unimplemented!() }
+//@ macro sylt-compiler/src/typechecker.rs bin_op
+//@ fn sylt-compiler/src/typechecker.rs no_ret
+//@   props C07
+//@   ret r
+//@   spec
+    ensures r == Ok::<RetNValue, Vec<Error>>((None, value)),
+//@   endspec
+//@ end
+//@ fn sylt-compiler/src/typechecker.rs with_ret
+//@   props C07
+//@   ret r
+//@   spec
+    ensures r == Ok::<RetNValue, Vec<Error>>((ret, value)),
+//@   endspec
+//@ end
+
+proof fn lemma_var_valid(tc: &TypeChecker, i: int)
+    requires tc.vars_valid(), 0 <= i < tc.variables@.len(),
+    ensures tc.valid(tc.variables@[i].ty),
+{
+}
+
 impl TypeCtx {
 //@ fn sylt-compiler/src/typechecker.rs new
 //@   in TypeCtx
@@ -630,6 +770,14 @@ impl TypeCtx {
         ensures r.inside_pure, r.inside_loop == self.inside_loop, //# C04,C05 typectx.enter_pure_keeps_loop
 //@   endspec
 //@ end
+//@ fn sylt-compiler/src/typechecker.rs enter_function
+//@   in TypeCtx
+//@   props C04 C05
+//@   ret r
+//@   spec
+        ensures !r.inside_loop, r.inside_pure == self.inside_pure, //# C04,C05 typectx.enter_function_leaves_loops_keeps_purity
+//@   endspec
+//@ end
 }
 impl TypeChecker {
     /// representation invariant of the type graph
@@ -639,7 +787,7 @@ impl TypeChecker {
     spec fn valid(&self, a: TyID) -> bool { (a.0 as int) < self.types@.len() }
     /// every variable's type id is a node of the graph
     spec fn vars_valid(&self) -> bool {
-        forall|i: int| 0 <= i < self.variables@.len() ==> ((#[trigger] self.variables@[i]).ty.0 as int) < self.types@.len()
+        forall|i: int| 0 <= i < self.variables@.len() ==> ((#[trigger] self.variables@[i].ty).0 as int) < self.types@.len()
     }
     spec fn inv2(&self) -> bool { self.inv() && self.vars_valid() }
     /// the frame every checker function obeys: the graph only grows, the variable table is fixed
@@ -657,18 +805,15 @@ impl TypeChecker {
             ids_in_range(ty, old(self).types@.len() as int + 1),
         ensures
             final(self).inv(), //# C02 push_type.keeps_invariant
+            old(self).vars_valid() ==> final(self).inv2(),
             r.0 == old(self).types@.len(), //# C02 push_type.returns_fresh_id
             final(self).types@.len() == old(self).types@.len() + 1,
-            final(self).types@[r.0 as int].ty == ty, //# C02 push_type.new_node_has_type
-            final(self).types@[r.0 as int].parent is None,
-            forall|i: int| 0 <= i < old(self).types@.len() ==> final(self).types@[i] == old(self).types@[i], //# C02 push_type.frame_old_nodes_untouched
-            forall|i: int| 0 <= i < old(self).types@.len() ==> rep0(final(self).types@, i) == rep0(old(self).types@, i), //# C02 push_type.frame_classes_untouched
-            rep0(final(self).types@, r.0 as int) == r.0, //# C02 push_type.singleton_class
+            push_frame(old(self).types@, final(self).types@, ty), //# C02 push_type.appends_one_singleton_class_and_touches_nothing_else
             final(self).variables == old(self).variables,
 //@   endspec
 //@   ghost after
 //@|         });
-            proof { lemma_push(old(self).types@, self.types@); }
+            proof { lemma_push(old(self).types@, self.types@); reveal(push_frame); }
 //@   endghost
 //@ end
 
@@ -689,6 +834,7 @@ impl TypeChecker {
             final(self).types.len() == old(self).types.len(),
             wf_forest(final(self).types@),
             old(self).inv() ==> final(self).inv(), //# C02 find.keeps_invariant
+            old(self).inv2() ==> final(self).inv2(),
             same_graph(old(self).types@, final(self).types@), //# C02 find.no_observable_change
             forall|o: Seq<TypeNode>| #[trigger] same_graph(o, old(self).types@) ==> same_graph(o, final(self).types@),
             tview(final(self).types@) == tview(old(self).types@), //# C02 find.view_unchanged
@@ -763,6 +909,7 @@ impl TypeChecker {
             final(self).types.len() == old(self).types.len(),
             wf_forest(final(self).types@),
             old(self).inv() ==> final(self).inv(), //# C02 find_node.keeps_invariant
+            old(self).inv2() ==> final(self).inv2(),
             same_graph(old(self).types@, final(self).types@), //# C02 find_node.no_observable_change
             forall|o: Seq<TypeNode>| #[trigger] same_graph(o, old(self).types@) ==> same_graph(o, final(self).types@),
             tview(final(self).types@) == tview(old(self).types@), //# C02 find_node.view_unchanged
@@ -787,6 +934,7 @@ impl TypeChecker {
             final(self).types.len() == old(self).types.len(),
             wf_forest(final(self).types@),
             old(self).inv() ==> final(self).inv(), //# C02 find_type.keeps_invariant
+            old(self).inv2() ==> final(self).inv2(),
             same_graph(old(self).types@, final(self).types@), //# C02 find_type.no_observable_change
             forall|o: Seq<TypeNode>| #[trigger] same_graph(o, old(self).types@) ==> same_graph(o, final(self).types@),
             tview(final(self).types@) == tview(old(self).types@), //# C02 find_type.view_unchanged
@@ -812,6 +960,7 @@ impl TypeChecker {
             final(self).types.len() == old(self).types.len(),
             wf_forest(final(self).types@),
             old(self).inv() ==> final(self).inv(), //# C02 is_void.keeps_invariant
+            old(self).inv2() ==> final(self).inv2(),
             same_graph(old(self).types@, final(self).types@), //# C02 is_void.no_observable_change
             forall|o: Seq<TypeNode>| #[trigger] same_graph(o, old(self).types@) ==> same_graph(o, final(self).types@),
             tview(final(self).types@) == tview(old(self).types@), //# C02 is_void.view_unchanged
@@ -1198,16 +1347,213 @@ proof fn lemma_parents_same_rep(a: Seq<TypeNode>, b: Seq<TypeNode>, h: Seq<nat>,
 
 impl TypeChecker {
 // ---- functions left outside (assumed contracts; signatures are taken from the repository) ---------
-//@ fn sylt-compiler/src/typechecker.rs expression
+//@ fn sylt-compiler/src/typechecker.rs copy
 //@   in TypeChecker
 //@   mode assumed
 //@   ret r
 //@   spec
-        requires old(self).inv2(),
-        ensures final(self).inv2(), final(self).grows(old(self)),
-            r is Ok ==> final(self).valid(r->Ok_0.1) && (r->Ok_0.0 is Some ==> final(self).valid(r->Ok_0.0->Some_0)),
+        requires old(self).inv2(), old(self).valid(ty),
+        ensures final(self).inv2(), final(self).grows(old(self)), final(self).valid(r),
 //@   endspec
 //@ end
+
+//@ fn sylt-compiler/src/typechecker.rs expression
+//@   in TypeChecker
+//@   props C03 C04 C05 C07
+//@   split 7 { return Err(opaque_errs(expression.span())); }
+//@   attr #[verifier::exec_allows_no_decreases_clause]
+//@   ret r
+//@   rewrite equivalent
+//@- let tys = branches
+//@-     .iter()
+//@-     .map(|branch| {
+//@+ let mut tys = Vec::new();
+//@+ for branch in branches.iter() {
+//@   why Verus rejects closures capturing &mut self and Iterator::map/collect; collecting Results stops at the first Err and `?` returns it - the same as `?` inside a loop that pushes the Ok values in order
+//@   endrewrite
+//@   rewrite equivalent
+//@- Ok((
+//@-     span,
+//@-     self.unify_option(*span, ctx, condition_ret, block_ret)?,
+//@-     block_value,
+//@- ))
+//@- })
+//@- .collect::<TypeResult<Vec<_>>>()?;
+//@+ tys.push((
+//@+     span,
+//@+     self.unify_option(*span, ctx, condition_ret, block_ret)?,
+//@+     block_value,
+//@+ ));
+//@+ }
+//@   why second half of the rewrite above
+//@   endrewrite
+//@   rewrite equivalent count=2
+//@- value.or(ret).unwrap_or_else(|| self.push_type(Type::Void)),
+//@+ match value.or(ret) { Some(v) => v, None => self.push_type(Type::Void) },
+//@   why closure capturing &mut self; unwrap_or_else calls the closure exactly when the option is None
+//@   endrewrite
+//@   rewrite equivalent
+//@- if actual_ret.map(|x| self.is_void(x)).unwrap_or(true) && !ret.is_void() {
+//@+ if (match actual_ret { Some(x) => self.is_void(x), None => true }) && !ret.is_void() {
+//@   why closure capturing &mut self; Option::map + unwrap_or(true) is this match
+//@   endrewrite
+//@   rewrite equivalent
+//@- let constraint = &branch.variable.map(|var| self.variables[var].ty);
+//@+ let constraint = &(match branch.variable { Some(var) => Some(self.variables[var].ty), None => None });
+//@   why closure capturing self; Option::map is this match
+//@   endrewrite
+//@   rewrite equivalent
+//@- let given_fields: BTreeMap<_, _> = fields
+//@-     .iter()
+//@-     .map(|(key, expr)| {
+//@-         Ok((key.clone(), (expr.span(), self.push_type(Type::Unknown))))
+//@-     })
+//@-     .collect::<TypeResult<_>>()?;
+//@+ let mut given_fields: BTreeMap<String, (Span, TyID)> = BTreeMap::new();
+//@+ for (key, expr) in fields.iter() {
+//@+     given_fields.insert(key.clone(), (expr.span(), self.push_type(Type::Unknown)));
+//@+ }
+//@   why closure capturing &mut self + collect; collecting pairs into a BTreeMap inserts them in order (a later duplicate key overwrites), which is this loop; the closure never returns Err
+//@   endrewrite
+//@   rewrite equivalent
+//@- let fields_and_types = given_fields
+//@-     .iter()
+//@-     .map(|(a, (s, x))| (a.clone(), (s.clone(), x.clone())))
+//@-     .collect::<BTreeMap<_, _>>();
+//@+ let fields_and_types = given_fields.clone();
+//@   why map/collect of cloned pairs into a BTreeMap is a clone of the map
+//@   endrewrite
+//@   rewrite equivalent
+//@- self.unify(expr.span(), ctx, expr_ty, fields_and_types[key].1)?;
+//@+ self.unify(expr.span(), ctx, expr_ty, (match fields_and_types.get(key) { Some(v) => v.1, None => unreachable!() }))?;
+//@   why vstd has no specification for Index on BTreeMap; map[key] is get(key) that panics when the key is absent - the panic is kept as the obligation unreachable!()
+//@   endrewrite
+//@   spec
+        requires old(self).inv2(),
+            e_ok(*expression, old(self).variables@.len() as int), //# C07 expression.pre.tree_is_well_formed
+        ensures final(self).inv2(), final(self).grows(old(self)),
+            r is Ok ==> final(self).valid(r->Ok_0.1) && (r->Ok_0.0 is Some ==> final(self).valid(r->Ok_0.0->Some_0)), //# C07 expression.result_ids_in_range
+            r is Ok ==> e_brk(*expression, ctx.inside_loop), //# C05 expression.break_only_inside_a_loop_of_the_same_function
+            r is Ok ==> e_pur(old(self).variables@, *expression, ctx.inside_pure), //# C04 expression.pure_functions_stay_pure_at_any_depth
+//@   endspec
+//@   ghost entry
+        hide(wf_forest); hide(ids_closed); hide(TypeChecker::vars_valid);
+        hide(e_below); hide(e_nodecl); hide(e_shape); hide(s_below); hide(s_nodecl); hide(s_shape);
+        hide(ib_below); hide(ib_nodecl); hide(ib_shape); hide(cb_below); hide(cb_nodecl); hide(cb_shape);
+        hide(e_brk); hide(e_pur); hide(s_brk); hide(s_pur); hide(ib_brk); hide(ib_pur); hide(cb_brk); hide(cb_pur);
+        let ghost n = self.variables@.len() as int; let ghost vs = self.variables@; let ghost il = ctx.inside_loop; let ghost ip = ctx.inside_pure;
+        proof { axiom_string_key_order(); lemma_e_ok_children(*expression, n); }
+//@   endghost
+//@   ghost before
+//@| match self.find_type(expr) {
+        proof { lemma_e_str_intro(vs, *expression, il, ip); } //# C04,C05 expression.children_obey_purity_and_loop_rules
+//@   endghost
+//@   ghost before-loop 1
+                        let ghost n1 = self.types@.len();
+//@   endghost
+//@   loop 1 binder it
+                            invariant
+                                self.inv2(), self.grows(old(self)), n == self.variables@.len(), vs == self.variables@, il == ctx.inside_loop, ip == ctx.inside_pure, self.types@.len() >= n1,
+                                ret is Some ==> self.valid(ret->Some_0), self.valid(ret_ty),
+                                it.seq().len() == args@.len(), args@.len() == params@.len(),
+                                forall|k: int| 0 <= k < args@.len() ==> *(#[trigger] it.seq()[k]).0 == args@[k] && *it.seq()[k].1 == params@[k],
+                                forall|k: int| 0 <= k < params@.len() ==> ((#[trigger] params@[k]).0 as int) < n1,
+                                forall|k: int| 0 <= k < args@.len() ==> e_ok(#[trigger] args@[k], n),
+                                forall|k: int| 0 <= k < it.index@ ==> e_both(vs, #[trigger] args@[k], il, ip), //# C04,C05 expression.loop1.arguments_checked
+//@   endloop
+//@   loop 2 binder it
+                    invariant
+                        self.inv2(), self.grows(old(self)), n == self.variables@.len(), vs == self.variables@, il == ctx.inside_loop, ip == ctx.inside_pure,
+                        it.seq().len() == branches@.len(),
+                        forall|k: int| 0 <= k < branches@.len() ==> *(#[trigger] it.seq()[k]) == branches@[k],
+                        forall|k: int| 0 <= k < branches@.len() ==> ib_ok(#[trigger] branches@[k], n),
+                        tys_valid(tys@, self.types@.len() as int),
+                        forall|k: int| 0 <= k < it.index@ ==> ib_str(vs, #[trigger] branches@[k], il, ip), //# C04,C05 expression.loop2.branches_checked
+//@   endloop
+//@   ghost before-loop 3
+                        let ghost n3 = self.types@.len();
+//@   endghost
+//@   loop 3 binder it
+                        invariant
+                            self.inv2(), self.grows(old(self)), n == self.variables@.len(), vs == self.variables@, il == ctx.inside_loop, ip == ctx.inside_pure, self.types@.len() >= n3,
+                            tys_valid(tys@, n3 as int), it.seq().len() == tys@.len(),
+                            forall|k: int| 0 <= k < tys@.len() ==> *(#[trigger] it.seq()[k]) == tys@[k],
+                            ret is Some ==> self.valid(ret->Some_0), value is Some ==> self.valid(value->Some_0),
+//@   endloop
+//@   loop 4 binder it
+                    invariant
+                        self.inv2(), self.grows(old(self)), n == self.variables@.len(), vs == self.variables@, il == ctx.inside_loop, ip == ctx.inside_pure, self.valid(to_match),
+                        vstd::std_specs::btree::key_obeys_cmp_spec::<String>(),
+                        it.seq().len() == branches@.len(),
+                        forall|k: int| 0 <= k < branches@.len() ==> *(#[trigger] it.seq()[k]) == branches@[k],
+                        forall|k: int| 0 <= k < branches@.len() ==> cb_ok(#[trigger] branches@[k], n),
+                        ret is Some ==> self.valid(ret->Some_0), value is Some ==> self.valid(value->Some_0),
+                        forall|k: int| 0 <= k < it.index@ ==> cb_str(vs, #[trigger] branches@[k], il, ip), //# C04,C05 expression.loop4.arms_checked
+//@   endloop
+//@   ghost before-loop 5
+                let ghost n5 = self.types@.len();
+//@   endghost
+//@   loop 5 binder it
+                    invariant
+                        self.inv2(), self.grows(old(self)), n == self.variables@.len(), vs == self.variables@, il == ctx.inside_loop, ip == ctx.inside_pure, self.valid(blob_ty), self.types@.len() >= n5,
+                        vstd::std_specs::btree::key_obeys_cmp_spec::<String>(),
+                        it.seq().len() == fields@.len(),
+                        forall|k: int| 0 <= k < fields@.len() ==> *(#[trigger] it.seq()[k]) == fields@[k],
+                        fields_in_range(given_fields, self.types@.len() as int),
+                        forall|k: int| 0 <= k < it.index@ ==> given_fields@.dom().contains((#[trigger] fields@[k]).0), //# C07 expression.loop5.every_given_field_gets_a_type
+//@   endloop
+//@   loop 6
+                    invariant vstd::std_specs::btree::key_obeys_cmp_spec::<String>(),
+//@   endloop
+//@   loop 7
+                    invariant vstd::std_specs::btree::key_obeys_cmp_spec::<String>(),
+//@   endloop
+//@   ghost before-loop 8
+                let ghost n8 = self.types@.len();
+//@   endghost
+//@   loop 8 binder it
+                    invariant
+                        self.inv2(), self.grows(old(self)), n == self.variables@.len(), vs == self.variables@, il == ctx.inside_loop, ip == ctx.inside_pure, self.types@.len() >= n8,
+                        vstd::std_specs::btree::key_obeys_cmp_spec::<String>(),
+                        self.valid(given_blob), self.valid(blob_ty), ret is Some ==> self.valid(ret->Some_0),
+                        it.seq().len() == fields@.len(),
+                        forall|k: int| 0 <= k < fields@.len() ==> *(#[trigger] it.seq()[k]) == fields@[k],
+                        forall|k: int| 0 <= k < fields@.len() ==> e_ok((#[trigger] fields@[k]).1, n),
+                        fields_in_range(fields_and_types, n8 as int),
+                        forall|k: int| 0 <= k < fields@.len() ==> fields_and_types@.dom().contains((#[trigger] fields@[k]).0),
+                        forall|k: int| 0 <= k < it.index@ ==> e_both(vs, (#[trigger] fields@[k]).1, il, ip), //# C04,C05 expression.loop8.fields_checked
+//@   endloop
+//@   loop 9 binder it
+                    invariant
+                        self.inv2(), self.grows(old(self)), n == self.variables@.len(), vs == self.variables@, il == ctx.inside_loop, ip == ctx.inside_pure, ret is Some ==> self.valid(ret->Some_0),
+                        it.seq().len() == values@.len(),
+                        forall|k: int| 0 <= k < values@.len() ==> *(#[trigger] it.seq()[k]) == values@[k],
+                        forall|k: int| 0 <= k < values@.len() ==> e_ok(#[trigger] values@[k], n),
+                        forall|k: int| 0 <= k < tys@.len() ==> self.valid(#[trigger] tys@[k]),
+                        forall|k: int| 0 <= k < it.index@ ==> e_both(vs, #[trigger] values@[k], il, ip), //# C04,C05 expression.loop9.members_checked
+//@   endloop
+//@   loop 10 binder it
+                    invariant
+                        self.inv2(), self.grows(old(self)), n == self.variables@.len(), vs == self.variables@, il == ctx.inside_loop, ip == ctx.inside_pure, ret is Some ==> self.valid(ret->Some_0), self.valid(inner_ty),
+                        it.seq().len() == values@.len(),
+                        forall|k: int| 0 <= k < values@.len() ==> *(#[trigger] it.seq()[k]) == values@[k],
+                        forall|k: int| 0 <= k < values@.len() ==> e_ok(#[trigger] values@[k], n),
+                        forall|k: int| 0 <= k < it.index@ ==> e_both(vs, #[trigger] values@[k], il, ip), //# C04,C05 expression.loop10.elements_checked
+//@   endloop
+//@   ghost before
+//@| let var = &self.variables[*var];
+                proof { lemma_var_valid(self, *var as int); }
+//@   endghost
+//@   ghost before
+//@| let enum_ty = self.copy(self.variables[*ty].ty);
+                proof { lemma_var_valid(self, *ty as int); }
+//@   endghost
+//@   ghost before
+//@| let blob_ty = self.copy(self.variables[*blob].ty);
+                proof { lemma_var_valid(self, *blob as int); }
+//@   endghost
+//@ end
+
 //@ fn sylt-compiler/src/typechecker.rs resolve_type
 //@   in TypeChecker
 //@   mode assumed
@@ -1474,23 +1820,28 @@ impl TypeChecker {
 //@   endghost
 //@   ghost after
 //@| let f = self.push_type(Type::Function(args, ret, purity));
-        proof { lemma_rep0_props(self.types@, f.0 as int); }
+        proof { reveal(push_frame); lemma_rep0_props(self.types@, f.0 as int); }
 //@   endghost
 //@ end
 
 //@ fn sylt-compiler/src/typechecker.rs definition
 //@   in TypeChecker
 //@   props C04 C07
+//@   attr #[verifier::exec_allows_no_decreases_clause]
 //@   ret r
 //@   spec
         requires old(self).inv2(),
             *statement is Definition, //# C07 definition.pre.is_definition
-            stmt_ok(*statement, old(self).variables@.len() as int), //# C07 definition.pre.var_in_range
+            s_ok(*statement, old(self).variables@.len() as int), //# C07 definition.pre.tree_is_well_formed
         ensures final(self).inv2(), final(self).grows(old(self)),
             r is Ok && r->Ok_0 is Some ==> final(self).valid(r->Ok_0->Some_0),
             ctx.inside_pure && statement->Definition_kind is Mutable ==> r is Err, //# C04 definition.mutable_in_pure_rejected
-            r is Ok ==> pure_ok(*statement, ctx.inside_pure), //# C04 definition.pure_ok
+            r is Ok ==> s_pur(old(self).variables@, *statement, ctx.inside_pure), //# C04 definition.pure_ok
+            r is Ok ==> s_brk(*statement, ctx.inside_loop), //# C05 definition.break_ok
 //@   endspec
+//@   ghost entry
+        proof { reveal_with_fuel(s_below, 2); reveal_with_fuel(s_nodecl, 2); reveal_with_fuel(s_shape, 2); }
+//@   endghost
 //@ end
 
 //@ fn sylt-compiler/src/typechecker.rs statement
@@ -1506,15 +1857,18 @@ impl TypeChecker {
 //@   endrewrite
 //@   spec
         requires old(self).inv2(),
-            stmt_ok(*statement, old(self).variables@.len() as int), //# C07 statement.pre.no_nested_declaration_and_vars_in_range
+            s_ok(*statement, old(self).variables@.len() as int), //# C07 statement.pre.no_nested_declaration_and_vars_in_range
         ensures final(self).inv2(), final(self).grows(old(self)),
             r is Ok && r->Ok_0 is Some ==> final(self).valid(r->Ok_0->Some_0),
             (*statement is Break || *statement is Continue) && !ctx.inside_loop ==> r is Err, //# C05 statement.break_outside_loop_rejected
             *statement is Assignment && ctx.inside_pure ==> r is Err, //# C04 statement.assignment_in_pure_rejected
             *statement is Assignment && !assignable_ok(old(self).variables@, statement->Assignment_target) ==> r is Err, //# C04 statement.assignment_to_constant_rejected
-            r is Ok ==> break_ok(*statement, ctx.inside_loop), //# C05 statement.break_ok
-            r is Ok ==> pure_ok(*statement, ctx.inside_pure), //# C04 statement.pure_ok
+            r is Ok ==> s_brk(*statement, ctx.inside_loop), //# C05 statement.break_ok
+            r is Ok ==> s_pur(old(self).variables@, *statement, ctx.inside_pure), //# C04 statement.pure_ok
 //@   endspec
+//@   ghost entry
+        proof { reveal_with_fuel(s_below, 2); reveal_with_fuel(s_nodecl, 2); reveal_with_fuel(s_shape, 2); }
+//@   endghost
 //@ end
 
 //@ fn sylt-compiler/src/typechecker.rs expression_block
@@ -1525,20 +1879,20 @@ impl TypeChecker {
 //@   ret r
 //@   spec
         requires old(self).inv2(),
-            forall|i: int| 0 <= i < statements@.len() ==> stmt_ok(#[trigger] statements@[i], old(self).variables@.len() as int), //# C07 expression_block.pre.statements_ok
+            all_ok(statements@, old(self).variables@.len() as int), //# C07 expression_block.pre.statements_ok
         ensures final(self).inv2(), final(self).grows(old(self)),
             r is Ok && r->Ok_0.0 is Some ==> final(self).valid(r->Ok_0.0->Some_0),
             r is Ok && r->Ok_0.1 is Some ==> final(self).valid(r->Ok_0.1->Some_0),
-            r is Ok ==> forall|i: int| 0 <= i < statements@.len() ==> break_ok(#[trigger] statements@[i], ctx.inside_loop), //# C05 expression_block.break_ok
-            r is Ok ==> forall|i: int| 0 <= i < statements@.len() ==> pure_ok(#[trigger] statements@[i], ctx.inside_pure), //# C04 expression_block.pure_ok
+            r is Ok ==> all_brk(statements@, ctx.inside_loop), //# C05 expression_block.break_ok
+            r is Ok ==> all_pur(old(self).variables@, statements@, ctx.inside_pure), //# C04 expression_block.pure_ok
 //@   endspec
 //@   loop 1 binder it
             invariant
                 self.inv2(), self.grows(old(self)), it.seq().len() == statements@.len(),
                 forall|k: int| 0 <= k < statements@.len() ==> *(#[trigger] it.seq()[k]) == statements@[k],
                 ret is Some ==> self.valid(ret->Some_0),
-                forall|i: int| 0 <= i < it.index@ ==> break_ok(#[trigger] statements@[i], ctx.inside_loop), //# C05 expression_block.loop.break_ok
-                forall|i: int| 0 <= i < it.index@ ==> pure_ok(#[trigger] statements@[i], ctx.inside_pure), //# C04 expression_block.loop.pure_ok
+                forall|i: int| 0 <= i < it.index@ ==> s_brk(#[trigger] statements@[i], ctx.inside_loop), //# C05 expression_block.loop.break_ok
+                forall|i: int| 0 <= i < it.index@ ==> s_pur(old(self).variables@, #[trigger] statements@[i], ctx.inside_pure), //# C04 expression_block.loop.pure_ok
 //@   endloop
 //@ end
 }
